@@ -28,6 +28,10 @@ type outcome struct {
 	// Via is set when the panic happened while reading a returned
 	// FileInfo / DirEntry rather than inside the call itself.
 	Via string
+
+	// Keep holds the FileInfo / []DirEntry values the call returned: objects
+	// handed out, which can be asked again later (see reRender).
+	Keep []any
 }
 
 func (o outcome) String() string {
@@ -228,6 +232,7 @@ func invoke(recv any, helper avfs.VFS, idm avfs.IdentityMgr, o opDesc) (out outc
 				if r.IsNil() {
 					vals = append(vals, "<nil>")
 				} else {
+					out.Keep = append(out.Keep, r.Interface().(fs.FileInfo))
 					vals = append(vals, renderInfo(helper, r.Interface().(fs.FileInfo)))
 				}
 
@@ -237,6 +242,7 @@ func invoke(recv any, helper avfs.VFS, idm avfs.IdentityMgr, o opDesc) (out outc
 
 				es := r.Interface().([]fs.DirEntry)
 				parts := make([]string, 0, len(es))
+				out.Keep = append(out.Keep, es)
 
 				for _, e := range es {
 					parts = append(parts, renderEntry(helper, e))
@@ -317,6 +323,32 @@ func invoke(recv any, helper avfs.VFS, idm avfs.IdentityMgr, o opDesc) (out outc
 	out.Kind = fsx.ErrKind(out.Err)
 
 	return out
+}
+
+// reRender asks the FileInfo / DirEntry values kept from an earlier call
+// again: every method of every one of them, rendered as invoke renders them.
+func reRender(helper avfs.VFS, keep []any) (val, kind, msg string) {
+	kind, msg = fsx.Guard(func() {
+		var vals []string
+
+		for _, x := range keep {
+			switch v := x.(type) {
+			case fs.FileInfo:
+				vals = append(vals, renderInfo(helper, v))
+			case []fs.DirEntry:
+				parts := make([]string, 0, len(v))
+				for _, e := range v {
+					parts = append(parts, renderEntry(helper, e))
+				}
+
+				vals = append(vals, "["+strings.Join(parts, " | ")+"]")
+			}
+		}
+
+		val = strings.Join(vals, " ; ")
+	})
+
+	return
 }
 
 func hasWalk(o opDesc) bool {
